@@ -328,6 +328,8 @@ def fixed_cases():
     flat("Foo", [["e", {"k": "enumCls", "cls": "Color", "names": ["RED", "GREEN", "BLUE"]}]], [["e", "PINK"]])
     flat("Foo", [["é", {"k": "integer"}]], [["é", "x"]])
     flat("Foo", [["x\u0301", {"k": "integer"}]], [["x\u0301", "a"]])   # identifier with a combining mark
+    flat("Foo", [["\u0928\u093e\u092e", {"k": "integer"}]], [["\u0928\u093e\u092e", "a"]])   # Hindi 'name': U+093E is a vowel sign (Mc)
+    flat("Foo", [["\u0e0a\u0e37\u0e48\u0e2d", {"k": "string", "maxLength": 1}]], [["\u0e0a\u0e37\u0e48\u0e2d", "ab"]])   # Thai 'name'
     flat("Foo", [["i", {"k": "integer", "min": [3, 1]}]], [["i", 0]])
     flat("Foo", [["ap", {"k": "seqPos", "items": [{"k": "integer"}, {"k": "string"}]}]], [["ap", {"l": [1]}]])
     flat("Foo", [["t", {"k": "tuplePos", "items": [{"k": "integer"}, {"k": "string"}]}]], [["t", {"t": [1]}]])
@@ -521,6 +523,7 @@ def gen_mapped(rng, tier):
 
 
 DEEP_KINDS = FLAT_KINDS + ["struct", "inline"]
+WRAPPER_KINDS = ["anyOf", "oneOf", "allOf", "notF"]
 HASHABLE_BAD = [None, 0, -3, "", "a", True, 7]
 
 
@@ -642,6 +645,7 @@ def gen_deep(rng, tier, n_classes):
             r = rng.random()
             want_struct = r < 0.3
             want_coll_of_struct = 0.3 <= r < 0.45
+            want_wrapper = 0.45 <= r < 0.6
             for _ in range(30):
                 # a collection nested >= 2 levels, a (top-level) nested structure (class reference or inline), or a
                 # collection of nested structures
@@ -650,9 +654,15 @@ def gen_deep(rng, tier, n_classes):
                 elif want_coll_of_struct:
                     fd = coll_of(rng.choice(["seqOf", "deque", "tupleOf", "mapVal"]),
                                  dg.class_decl(2, n_fields=rng.randint(1, 3), inline=rng.random() < 0.25))
+                elif want_wrapper:
+                    # AnyOf / OneOf / AllOf / NotField over scalars and collections, as a field or as the item of a collection
+                    dgw = gen.DeclGen(rng, max_depth=2, allow=FLAT_KINDS + WRAPPER_KINDS, p_constraint=0.5)
+                    fd = {"k": rng.choice(WRAPPER_KINDS), "fields": [dgw.decl(1) for _ in range(rng.randint(1, 3))]}
+                    if rng.random() < 0.4:
+                        fd = coll_of(rng.choice(["seqOf", "deque", "tupleOf", "mapVal"]), fd)
                 else:
                     fd = dg.decl(0)
-                if (want_struct or want_coll_of_struct or container_depth(fd) >= 2) and not inline_under_map(fd):
+                if (want_struct or want_coll_of_struct or want_wrapper or container_depth(fd) >= 2) and not inline_under_map(fd):
                     fields.append([nm, fd])
                     break
         if not fields:
@@ -692,7 +702,7 @@ def gen_deep(rng, tier, n_classes):
 VIA_KINDS = ["plain", "partial", "allrequired", "extend", "omit", "pick", "omit-method", "pick-method", "subclass", "local"]
 # class names a user may choose (type() accepts any string): word-only names keep the field; names with a
 # character outside [\\w.] are the region of the open finding field-lost:non-word-name
-ODD_CLASS_NAMES = ["Foo_1", "F9", "_Priv", "\u00dcn\u00ef", "Foo.Bar", "x\u0301Cls", "My Class", "a-b", "Gen[int]"]
+ODD_CLASS_NAMES = ["Foo_1", "F9", "_Priv", "\u00dcn\u00ef", "Foo.Bar", "x\u0301Cls", "\u0928\u093e\u092e", "My Class", "a-b", "Gen[int]"]
 
 
 def gen_names(rng, tier):
@@ -1326,12 +1336,16 @@ def classify_no_path(text, raised, mode, ff, invalid_kinds, supplied_kinds, inne
     return "no-path:other"
 
 
+# the field group of errors.py since /repo 18c6055 (written here from its documentation, not imported)
+FIELD_GROUP = r"(?:[\w.]|[^\x00-\x7f\s])"
+
+
 def classify_lost(text, path, declared=""):
-    if path is not None and re.fullmatch(r"[\w.]+", path) is None:
+    if path is not None and re.fullmatch(FIELD_GROUP + "+", path) is None:
         # a name with a character that is neither str.isalnum() nor `_` (e.g. a combining mark): the open
         # finding covers names the USER chose (class, explicit derived-class name, fields); a non-word character
         # that none of them contains was put there by typedpy (the name it gave a class it created)
-        if any(re.fullmatch(r"[\w.]", ch) is None and ch not in declared for ch in path):
+        if any(re.fullmatch(FIELD_GROUP, ch) is None and ch not in declared for ch in path):
             return "field-lost:non-word-name:generated-class-name"
         return "field-lost:non-word-name"
     if "\n" in text:
@@ -1542,8 +1556,11 @@ def tags(case, impl, model):
     if model and "out" in model:
         for s in model["out"].get("sites", []):
             out.append("site-shape:" + s["shape"])
-        for c in model["out"].get("cmp", []):
-            out.append("problem-template:" + ("typedpy" if c.get("templateOk") else "other"))
+        # only where the compared texts ARE constructor messages (not phase-one texts of deserialization)
+        if case["mode"] == "construct" or (case["mode"] == "deser" and not model["out"].get("phase1")):
+            for s, c in zip(model["out"].get("sites", []), model["out"].get("cmp", [])):
+                out.append("problem-template:" + ("typedpy" if c.get("templateOk") else
+                                                  ("embedded-message(inline structure)" if s.get("shape") == "plain" else "other")))
     return out
 
 
